@@ -114,7 +114,8 @@ where
         let r = || -> usize { parse_hex_u64(op[1]) as usize };
         let reply: String = match op[0] {
             "feat" => {
-                let v: u64 = (1 << vfeat::VERSION_1) | if op[1] == "1" { 1 << vfeat::PROTOCOL_FEATURES } else { 0 };
+                // `feat z`: the empty feature word (a legacy front-end acknowledging nothing): like `feat 0` it lacks bit 30
+                let v: u64 = if op[1] == "z" { 0 } else { (1 << vfeat::VERSION_1) | if op[1] == "1" { 1 << vfeat::PROTOCOL_FEATURES } else { 0 } };
                 b.peer.set(codes::SET_FEATURES, &peer::b_u64(v), &[]).tag().into()
             }
             "kick" | "call" => {
